@@ -1875,3 +1875,79 @@ def run(chk, F):
     suffix_len = run_r3(chk, F, roles, tables)
     run_r4(chk, F, roles, S, tables, suffix_len)
     run_r5(chk, F, roles)
+    run_r6(chk, F)
+
+
+# ================================================================================================ R6
+def run_r6(chk, F):
+    """The linker symbol of a function instantiation is the mangled *display name*; R2 shows the mangler is injective,
+    so two instantiations collide exactly when their display names are equal.  The display name of a function is
+    module-qualified (display_fct_inner goes through module_path*), but the names of the nominal types among its type
+    arguments come from the type printer.  A nominal type printed without its module path makes `id[a::Foo]` and
+    `id[b::Foo]` one symbol; a trait-object type printed without its associated-type bindings makes
+    `id[Src[Item = Int64]]` and `id[Src[Item = String]]` one symbol."""
+    import hirq
+    r = chk.rule("C19.R6", "the type printer behind symbol display names keeps distinct types distinct: every nominal "
+                           "type (class, struct, enum, trait object) is printed with its module path, like function "
+                           "names are, and a trait object's associated-type bindings are printed")
+    bc = F.crate("dora_bytecode")
+    helpers = {p for p in bc.hir if p.startswith("dora_bytecode::display::module_path")}
+    if not r.anchor("module-path helpers used for function display names", helpers):
+        return
+    fct = bc.hir_fn("display::display_fct_inner")
+    uses = fct is not None and any(
+        n[0] == "call" and hirq.is_node(n[2]) and n[2][:2] == ["def", "fn"] and n[2][2] in helpers
+        for n in hirq.walk(fct["body"]))
+    r.anchor("display_fct_inner qualifies function names with the module path", uses)
+    printers = []
+    for p, b in bc.hir.items():
+        if "dora_bytecode::display::" not in p or last_seg(p) != "fmt":
+            continue
+        for n in hirq.walk(b["body"]):
+            if n[0] == "match":
+                arms = [(pat, body) for (pat, _g, body) in n[2]
+                        if any(m[0] in ("pts", "pstruct", "ppath") and "BytecodeType::" in m[1][2] for m in hirq.walk(pat))]
+                if len(arms) >= 8:
+                    printers.append((p, b, arms))
+    if not r.anchor("type printer (Display impl that matches on BytecodeType)", printers):
+        return
+    p, b, arms = printers[0]
+    where = "%s:%d" % (b["file"], b["line"])
+    n_nominal = 0
+    for pat, body in arms:
+        variants = [last_seg(m[1][2]) for m in hirq.walk(pat) if m[0] in ("pts", "pstruct", "ppath")
+                    and "BytecodeType::" in m[1][2]]
+        # nominal: the arm prints the `.name` field of a definition looked up in the program
+        prints_name = any(m[0] == "field" and m[2] == "name" for m in hirq.walk(body))
+        if not prints_name:
+            continue
+        for v in variants:
+            if v not in ("Class", "Struct", "Enum", "TraitObject"):
+                continue        # type aliases / associated types are resolved before code is generated: never in a symbol
+            n_nominal += 1
+            qualified = any(m[0] == "call" and hirq.is_node(m[2]) and m[2][:2] == ["def", "fn"] and m[2][2] in helpers
+                            for m in hirq.walk(body))
+            r.instance("%s:%s:module-path" % (p, v), sample={"type": v, "module_qualified": qualified})
+            if not qualified:
+                r.violation("%s:%s:printed-without-module-path" % (p, v),
+                            "BytecodeType::%s is printed by its bare name: two types of the same name in different "
+                            "modules give the same display name, so a generic function instantiated with both gets one "
+                            "linker symbol twice (`mod a { class Foo }  mod b { class Foo }  id[a::Foo](..); "
+                            "id[b::Foo](..)` → assembler: symbol `dora_id_5BFoo_5D' is already defined)" % v, where)
+        # trait objects: the bindings must reach the output
+        binds = [m[1] for m in hirq.walk(pat) if m[0] == "pbind" and "binding" in m[1]]
+        for bn in binds:
+            printed = any(m[0] == "local" and m[1] == bn and True for c_ in hirq.walk(body)
+                          if c_[0] in ("call", "mcall") and "is_empty" not in str(c_[3] if c_[0] == "mcall" else "")
+                          for m in hirq.walk(c_) if c_[0] == "call" or c_[3] != "is_empty")
+            r.instance("%s:%s:bindings-printed" % (p, variants[0]), sample={"bindings_local": bn, "printed": printed})
+            if not printed:
+                r.violation("%s:%s:bindings-not-printed" % (p, variants[0]),
+                            "the associated-type bindings of a trait-object type are tested for emptiness but never "
+                            "printed (the type parameters are printed a second time): `id[Src[Item = Int64]]` and "
+                            "`id[Src[Item = String]]` get the same display name and the same linker symbol", where)
+    r.floor("nominal type arms of the type printer", n_nominal, 4)
+
+
+def last_seg(p):
+    return p.rsplit("::", 1)[-1]
